@@ -28,7 +28,7 @@ theorem get_set_other (vs : Vars) {k k' : Str} (v : Str) (h : k' ≠ k) : get (s
     · subst h0
       simp [set, get, h.symm]
     · by_cases h1 : k0 = k'
-      · simp [set, get, h0, h1]
+      · subst h1; simp [set, get, h0]
       · simp [set, get, h0, h1, ih]
 
 theorem keys_set (vs : Vars) (k v : Str) : ∀ x, x ∈ keys (set vs k v) ↔ x ∈ keys vs ∨ x = k := by
@@ -38,7 +38,7 @@ theorem keys_set (vs : Vars) (k v : Str) : ∀ x, x ∈ keys (set vs k v) ↔ x 
     obtain ⟨k0, v0⟩ := p
     intro x
     by_cases h0 : k0 = k
-    · subst h0; simp [set, keys]
+    · subst h0; simp [set, keys]; intro h; exact .inl h
     · have := ih x
       simp only [keys] at this
       simp only [set, h0, if_false, keys, List.map_cons, List.mem_cons, this]
@@ -129,6 +129,22 @@ theorem lookup_eq_some_of_mem {e : EnvList} (hn : NodupKeys e) {k v : Str} (hm :
       simp [lookup, this]
     · simp [lookup, ih hn.2 hm]
 
+theorem hasKey_of_lookup {e : EnvList} {k w : Str} (h : lookup e k = some w) : hasKey e k = true := by
+  cases hk : hasKey e k with
+  | true => rfl
+  | false =>
+    have : k ∉ keys e := by
+      intro hmem
+      simp only [keys, List.mem_map] at hmem
+      obtain ⟨p, hp, hpk⟩ := hmem
+      have : hasKey e k = true := by
+        simp only [hasKey, List.any_eq_true]
+        exact ⟨p, hp, by simp [hpk]⟩
+      rw [hk] at this
+      exact Bool.noConfusion this
+    rw [lookup_none_of_not_key this] at h
+    simp at h
+
 theorem nodupKeys_perm {a b : EnvList} (hp : a.Perm b) (hn : NodupKeys b) : NodupKeys a := by
   unfold NodupKeys keys at *
   exact (hp.map Prod.fst).nodup_iff.2 hn
@@ -145,14 +161,16 @@ theorem loadAux_nodup {cwd : Str} {stmts : List Stmt} {f f' : File} (hn : NodupK
       unfold loadAux at h
       split at h
       · simp at h
-      · exact ih (nodupKeys_set hn _ _) h
+      · refine ih ?_ h
+        exact nodupKeys_set hn _ _
     | task t =>
       unfold loadAux at h
       split at h
       · simp at h
       · split at h
         · simp at h
-        · exact ih hn h
+        · refine ih ?_ h
+          exact hn
 
 theorem load_nodup {cwd : Str} {stmts : List Stmt} {f : File} (h : load cwd stmts = .ok f) : NodupKeys f.vars :=
   loadAux_nodup (by simp [NodupKeys, keys]) h
@@ -168,7 +186,8 @@ theorem loadAux_tasks_mono {cwd : Str} {stmts : List Stmt} {f f' : File}
       unfold loadAux at h
       split at h
       · simp at h
-      · exact ih h
+      · intro l hl
+        exact ih h l hl
     | task t =>
       unfold loadAux at h
       split at h
@@ -180,13 +199,24 @@ theorem loadAux_tasks_mono {cwd : Str} {stmts : List Stmt} {f f' : File}
 
 /-! ## strings.TrimSpace -/
 
+theorem mem_takeWhile {p : Char → Bool} {l : Str} {x : Char} (h : x ∈ l.takeWhile p) : p x = true := by
+  induction l with
+  | nil => simp at h
+  | cons a t ih =>
+    by_cases ha : p a = true
+    · simp [List.takeWhile, ha] at h
+      rcases h with rfl | h
+      · exact ha
+      · exact ih h
+    · simp [List.takeWhile, ha] at h
+
 theorem trimLeft_spec (s : Str) : ∃ l, s = l ++ trimLeft s ∧ l.all isSpace = true ∧
     (∀ c, (trimLeft s).head? = some c → isSpace c = false) := by
   refine ⟨s.takeWhile isSpace, ?_, ?_, ?_⟩
   · simp [trimLeft, List.takeWhile_append_dropWhile]
   · simp only [List.all_eq_true]
     intro x hx
-    exact List.mem_takeWhile_imp hx
+    exact mem_takeWhile hx
   · intro c hc
     unfold trimLeft at hc
     have := List.head?_dropWhile_not isSpace s
